@@ -746,7 +746,7 @@ func run(c *core.Ctx) {
 				}
 				nGrams++
 				x1 := g.T + 1
-				cfgs := [][]gramenum.Input{{{NT: x1, Eoi: true}}, {{NT: x1, Eoi: false}}, {{NT: x1, Eoi: false}, {NT: x1, Eoi: true}}}
+				cfgs := [][]gramenum.Input{{{NT: x1, Eoi: true}}, {{NT: x1, Eoi: false}}} // (listing X1 twice is a compile error since repo commit 6173e1b)
 				if g.N >= 2 {
 					x2 := g.T + 2
 					cfgs = append(cfgs,
